@@ -385,7 +385,9 @@ def merge_obligations(pid, tier, seed):
                     args0, pre0 = list(args), list(pre)
                     extra = tot <= 3
                     if extra:
-                        args += [('so', 'int'), ('sc', 'int'), ('sn', 'int'), ('eo', 'bool'), ('ec', 'bool'), ('en', 'bool')]
+                        # "empty state given as None" only exists for an empty state: no flag (and no fork) otherwise
+                        args += [('so', 'int'), ('sc', 'int'), ('sn', 'int')] + \
+                            [(f_, 'bool') for f_, n_ in (('eo', na), ('ec', nb), ('en', nc)) if n_ == 0]
                         pre += ['0 <= so < 3', '0 <= sc < 3', '0 <= sn < 3']
                     elif tot <= 5:
                         args += [('so', 'int'), ('sn', 'int')]
@@ -603,7 +605,7 @@ def commit_obligations(pid, tier, seed):
                 pre = ['0 <= op < %d' % nops, '0 <= cut < 2']
                 obs.append(dict(id=base, mod='h_txn', fn='commit_step', nk=m, args=args, pre=pre, params=P, timeout=t))
                 # a second transaction on top (commit/abort/none), for shapes that stay small
-                if (tier == 'quick' and tag == 'core' and m <= 3) or (tier != 'quick' and m <= 4):
+                if (tier == 'quick' and tag == 'core' and m <= 2) or (tier != 'quick' and m <= 4):
                     for g2 in ('write', 'del'):
                         nops2 = 3 if g2 == 'write' else (3 if is_set else 4)
                         if tier == 'quick' and m >= 2 and ((g, g2) != ('del', 'write') or is_set):
@@ -614,7 +616,7 @@ def commit_obligations(pid, tier, seed):
                                         pre=pre + ['0 <= op2 < %d' % nops2, '0 <= cut2 < 2'], params=P2, timeout=t))
     obs += leaf_ir_obligations(pid, tier, 'notify')
     obs += tree_ir_obligations(pid, tier, ['notify'], big=False, fams=['II', 'QQ'] if tier == 'quick' else ['II', 'UU', 'LL', 'QQ'], sets=True)
-    bounds.update(per_condition_timeout_s=t, transactions='one operation + commit|abort; second operation + commit|abort on shapes with <= 4 (quick) / 5 keys')
+    bounds.update(per_condition_timeout_s=t, transactions='one operation + commit|abort; second operation + commit|abort on core shapes with <= 2 keys (quick; three keys did not exhaust within 300 s in the round-3 environment) / <= 4 keys (thorough)')
     return {'obligations': obs, 'bounds': bounds}
 
 
